@@ -77,7 +77,7 @@ LOG (decisions)
   tokens computed by the library's own leaf (de)serializers, incl. the norm table (payload after a leaf
   round trip), the fill table (value_info payload completed from a tensor) and the "re-serialization of this
   attribute raises" flag; quantization annotations, device configurations, metadata merge when value info is
-  applied twice to one value, the IR<10 experimental function value-info format and string fields holding
+  applied twice to one value and string fields holding
   invalid UTF-8 (protobuf returns bytes) are left out of the model (such cases skip the Coq comparison and are
   counted under coverage["unmodelled"]; the oracle still runs on them); NameAuthority never renames during
   deserialization because every name is a str; Python recursion limit.
@@ -102,8 +102,14 @@ LOG (decisions)
   oracle_leaf_dims compares every dimension the library reads with an independent reading of the proto).
 * KNOWN finding experimental-function-value-info-name-collision (clean tree, ir_version < 10): a main-graph value
   named '<domain>::<function>/<value>' is read back also as that function value's type; the next serialization
-  writes a second entry, so the fixpoint fails; outside the structural model (IR<10 function value info is
-  unmodelled); attribution by repair = rename such values.
+  writes a second entry, so the fixpoint fails; the model reproduces it: C17_ser_fixpoint_old_refuted; attribution by
+  repair = rename such values.
+* IR < 10 experimental function value-info format: MODELLED since the deepening round (C03/ModelOld.v: deser_model_old =
+  deser_model + post-pass applying main-graph value_info entries named "{domain}::{function}/{value}" to the function's
+  inputs and node outputs; ser_model_old = functions without value_info + those entries appended to the main graph;
+  the two string operations are per-case tables X (parse, via the library's parser) and Y (compose)).  Every case with
+  ir_version < 10 and functions goes through deser_model_x / ser_model_x / model_fixpoint_x in Coq (no longer skipped).
+  Theorems: C17_consistent_x (Inv in both formats), C17_ser_fixpoint_old_refuted, C03_ser_readonly_old.
 """
 
 from __future__ import annotations
